@@ -223,6 +223,18 @@ func Run(dir, prop string, seed uint64, n int) error {
 		}
 	}
 	if prop == "C01" {
+		// how the snapshot classifies a pod and whether it is accounted on its node: all 80 combinations, every run
+		StatusCases(func(term, label string) {
+			out.Add(term, label)
+			out.Count("snapshot-status-rows")
+			out.NonTrivial(label)
+		})
+	}
+	if prop == "C01" || prop == "C02" {
+		faultWrap := "(FFault %s)"
+		if prop == "C02" {
+			faultWrap = "(PFault %s)"
+		}
 		// cycles with failing Bind / Evict API calls: the books are not compared (a failed commit leaves
 		// un-emitted operations applied for the rest of the cycle), the decisions still have to be safe
 		for i := 0; i < n; i++ {
@@ -237,7 +249,7 @@ func Run(dir, prop string, seed uint64, n int) error {
 				}
 			}
 			term, label, st := Emit(c)
-			out.Add(fmt.Sprintf("(FFault %s)", term), "faults "+label)
+			out.Add(fmt.Sprintf(faultWrap, term), "faults "+label)
 			out.Count("fault-cycles")
 			if strings.Contains(label, "FAILED") {
 				out.Count("fault-cycles-with-a-failed-call")
@@ -269,9 +281,9 @@ func Run(dir, prop string, seed uint64, n int) error {
 	out.Stats["rule"] = "generated clusters (1-3 nodes, 0-4 GPUs, 1-3 queues with quotas/limits, 2-7 jobs of 1-3 pods: whole / fractional / multi-fraction / gpu-memory / cpu-only / best-effort, gangs with minMember and two pod sets, pending / running / mixed / terminating) assembled with the real constructors; the real actions (allocate, then a random subset of consolidation, reclaim, preempt, stalegangeviction) run once with the default plugin tiers and a recording cache. Non-trivial = the cycle issued at least one Bind / Evict / TaskPipelined; distinct by cluster and decisions."
 	switch prop {
 	case "C01":
-		out.Stats["rule"] = out.Stats["rule"].(string) + " Plus the same kind of clusters with injected failures of the k-th Bind / Evict Cache call (k < 8, each with probability 1/3 resp. 1/5): only the monitor (occupying + successfully bound <= allocatable) is evaluated on them."
+		out.Stats["rule"] = out.Stats["rule"].(string) + " Plus the same kind of clusters with injected failures of the k-th Bind / Evict Cache call (k < 8, each with probability 1/3 resp. 1/5): only the monitor (occupying + successfully bound <= allocatable) is evaluated on them. Plus, exhaustively, the 80 combinations of pod phase x deletionTimestamp x spec.nodeName x BindRequest x scheduling gates through the real PodInfo constructor and NodeInfo.AddTasksToNode (status and whether the pod is accounted on its node)."
 	case "C02":
-		out.Stats["rule"] = out.Stats["rule"].(string) + " Plus function-level decision cases: generated nodes (1-4 GPUs, up to 6 shared / whole-GPU occupants running, terminating, bound or nominated) and a pending fractional / multi-fraction / gpu-memory task; the real GetNodePreferableGpuForSharing is called with the candidate list in pack, spread or shuffled order."
+		out.Stats["rule"] = out.Stats["rule"].(string) + " Plus the same kind of clusters with injected failures of the k-th Bind / Evict Cache call (k < 8, each with probability 1/3 resp. 1/5): only the device monitor is evaluated on them. Plus function-level decision cases: generated nodes (1-4 GPUs, up to 6 shared / whole-GPU occupants running, terminating, bound or nominated) and a pending fractional / multi-fraction / gpu-memory task; the real GetNodePreferableGpuForSharing is called with the candidate list in pack, spread or shuffled order."
 	case "C03":
 		out.Stats["rule"] = out.Stats["rule"].(string) + " Plus function-level gang cases: generated pod groups (1-3 pod sets, 0-4 pods each in any status, real or simulated allocation) on which the real GetTasksToAllocate / GetTasksToEvict / readiness getters are called with the production pod-set order. Plus attempt cases: one pending gang (1-3 pod sets, minimum 1-3 each, some pods already running, single-set gangs with 0-2 surplus pods, one in five multi-set gangs not ready) on 1-3 nodes of 1-4 GPUs partly held by running or terminating filler pods, through the real allocate action; the model's allocate loop is driven by the observed Bind / TaskPipelined calls per pod set and must end in the observed statuses."
 	}
